@@ -20,7 +20,7 @@ run_on_copy() { # <patch> <expected exit> <props...>
   for p in "$@"; do
     (cd $snap && PYSCSI_REPO=$tmp/repo VERIF_OUT_DIR=$tmp/out ./check $p --tier quick > $tmp/log_$p.txt 2>&1); got=$?
     label=$(basename $patch .patch); [ "$label" = patch.diff ] && label=$(basename $(dirname $patch))
-    if [ "$got" = "$want" ]; then echo "ok   $label $p exit=$got"; else echo "FAIL $label $p exit=$got (wanted $want)"; grep -E "^(CHECKER-ERROR|UNDECIDED|VIOLATION|  obligation)" $tmp/log_$p.txt | sort | cut -c1-400 | head -6; fail=1; fi
+    if [ "$got" = "$want" ]; then echo "ok   $label $p exit=$got"; else echo "FAIL $label $p exit=$got (wanted $want)"; (grep -E "^CHECKER-ERROR" $tmp/log_$p.txt; grep -E "^(UNDECIDED|VIOLATION)" $tmp/log_$p.txt) | cut -c1-400 | head -6; fail=1; fi
   done
   rm -rf $tmp
 }
